@@ -3,6 +3,10 @@ mod checks;
 mod ctx;
 mod refcodec;
 mod refcrypto;
+mod talloc;
+
+#[global_allocator]
+static GLOBAL: talloc::TAlloc = talloc::TAlloc;
 
 use ctx::Tier;
 
